@@ -107,3 +107,38 @@ package shellfuncsfile
 //@     invariant in_order: nFrom == k && !lastOK && nGen == 0 && nStr == 0 && nLF == 0
 //@   ensures every_source_converted: imp(err == nil, nFrom == len(sources))
 //@   ensures listing_iff_asked: imp(err == nil, iff(c.AddListFunction, nGen == 1 && nLF == 1))
+
+// ---- the tab_list function (C18)
+
+// GenFuncList: one row per tagged line with something after the tag (first
+// word, rest), plus the own row; rows are split out of the table, sorted and
+// de-duplicated, and every row handed to the template has had every single
+// quote replaced by '\'' - none skipped, nothing else changed.
+//@ func GenFuncList(s) (res, err)
+//@   props C18
+//@   ghost nOwn int = 0
+//@   ghost orig string = ""
+//@   ghost tagged bool = false
+//@   ghost cutN string = ""
+//@   ghost cutD string = ""
+//@   ghost haveCut bool = false
+//@   ghost flushed bool = false
+//@   ghost nDel int = 0
+//@   ghost nSort int = 0
+//@   ghost nCompact int = 0
+//@   ghost nExec int = 0
+//@   on call strings.HasPrefix(a, b) (r): assert(b == DocPrefix && a == line && !flushed, "only_tagged_lines"); orig = a; tagged = r; haveCut = false
+//@   on call strings.Cut(x, sep) (n, d, ok): assert(tagged && sep == " " && x != "" && x == strings.TrimSpace(strings.TrimPrefix(orig, DocPrefix)), "first_word_and_rest_of_the_text_after_the_tag"); cutN = n; cutD = d; haveCut = true
+//@   on enter fmt.Fprintf(w, f, v): assert(w == tw && !flushed && f == "%s\t- %s\n", "one_row_per_line_through_the_table_writer"); if nOwn == 0 { assert(boxes(v[0], ListFuncName) && boxes(v[1], ListFuncDesc), "own_row"); nOwn++ } else { assert(haveCut && boxes(v[0], strings.TrimSpace(cutN)) && boxes(v[1], strings.TrimSpace(cutD)), "row_is_name_and_description"); haveCut = false }
+//@   on enter tabwriter.Writer.Flush(t): assert(t == tw && nOwn == 1, "table_flushed_after_all_rows"); flushed = true
+//@   on enter slices.DeleteFunc(x, f): assert(flushed && x == lines && nDel == 0 && nSort == 0, "empty_pieces_removed"); nDel++
+//@   on enter slices.Sort(x): assert(x == lines && nDel == 1 && nSort == 0, "rows_sorted"); nSort++
+//@   on enter slices.Compact(x): assert(x == lines && nSort == 1 && nCompact == 0, "duplicate_rows_removed"); nCompact++
+//@   on enter template.Template.Execute(t, w, data): assert(t == funcListTemplate && nDel == 1 && nSort == 1 && nCompact == 1 && boxes(data, lines) && forall(j, 0 <= j && j < len(lines), lines[j] == strings.ReplaceAll(pre("2", lines[j]), "'", "'\\''")), "every_row_is_escaped_after_sorting_and_deduplication"); nExec++
+//@   loop 1
+//@     invariant rows: nOwn == 1 && !flushed && nDel == 0 && nSort == 0 && nCompact == 0 && nExec == 0
+//@   loop 2 counter i
+//@     invariant escaped_so_far: forall(j, 0 <= j && j < i, lines[j] == strings.ReplaceAll(pre("2", lines[j]), "'", "'\\''"))
+//@     invariant rest_untouched: forall(j, i <= j && j < len(lines), lines[j] == pre("2", lines[j]))
+//@     invariant stage: nDel == 1 && nSort == 1 && nCompact == 1 && nExec == 0
+//@   ensures rolled_once: nExec == 1
